@@ -100,9 +100,10 @@ func c13Subjects() []c13Subject {
 			_ = q.PushBack(i)
 		}
 		d := q.Distributor()
-		fw, rv := make([]fun.Producer[int], 8), make([]fun.Producer[int], 8)
+		dnb := q.DistributorNonBlocking()
+		fw, rv, rvb := make([]fun.Producer[int], 8), make([]fun.Producer[int], 8), make([]fun.Producer[int], 8)
 		for i := range fw {
-			fw[i], rv[i] = q.ProducerBlocking(), q.ProducerReverse()
+			fw[i], rv[i], rvb[i] = q.ProducerBlocking(), q.ProducerReverse(), q.ProducerReverseBlocking()
 		}
 		return []c13Driver{
 			{"PushFront", func(g, i int) { _ = q.PushFront(i) }},
@@ -118,10 +119,24 @@ func c13Subjects() []c13Subject {
 			{"Len", func(g, i int) { _ = q.Len() }},
 			{"ProducerBlocking.Next", func(g, i int) { ctx, c := cancelSoon(i); _, _ = fw[g%len(fw)](ctx); c() }},
 			{"ProducerReverse.Next", func(g, i int) { _, _ = rv[g%len(rv)](bg) }},
+			{"ProducerReverseBlocking.Next", func(g, i int) { ctx, c := cancelSoon(i); _, _ = rvb[g%len(rvb)](ctx); c() }},
 			{"Iterator(full)", func(g, i int) {
 				it := q.Iterator()
 				for k := 0; k < 20 && it.Next(bg); k++ {
 				}
+			}},
+			{"IteratorReverse(full)", func(g, i int) {
+				it := q.IteratorReverse()
+				for k := 0; k < 20 && it.Next(bg); k++ {
+				}
+			}},
+			{"DistributorNonBlocking.Send/Receive", func(g, i int) {
+				if i%2 == 0 {
+					_ = dnb.Send(bg, i)
+				} else {
+					_, _ = dnb.Receive(bg)
+				}
+				_ = dnb.Len()
 			}},
 			{"Distributor.Send/Receive", func(g, i int) {
 				ctx, c := cancelSoon(i)
@@ -212,6 +227,7 @@ func c13Subjects() []c13Subject {
 			{"IsDone", func(g, i int) { _ = wg.IsDone() }},
 			{"Wait(cancelled soon)", func(g, i int) { c, cc := cancelSoon(i); wg.Wait(c); cc() }},
 			{"Launch", func(g, i int) { wg.Launch(bg, func(context.Context) {}) }},
+			{"DoTimes", func(g, i int) { wg.DoTimes(bg, 1+i%3, func(context.Context) {}) }},
 			{"Worker", func(g, i int) { c, cc := cancelSoon(i); _ = wg.Worker().Run(c); cc() }},
 		}, func() { wg.Done(); wg.Wait(bg) }
 	}})
@@ -256,6 +272,9 @@ func c13Subjects() []c13Subject {
 			{"Check", func(g, i int) { _ = m.Check(i % 16) }},
 			{"Ensure", func(g, i int) { m.Ensure(i % 16) }},
 			{"EnsureStore", func(g, i int) { _ = m.EnsureStore(i%16, i) }},
+			{"EnsureSet", func(g, i int) { _ = m.EnsureSet(dt.MakePair(i%16, i)) }},
+			{"EnsureDefault", func(g, i int) { _ = m.EnsureDefault(i%16, func() int { return i }) }},
+			{"UnmarshalJSON", func(g, i int) { _ = m.UnmarshalJSON([]byte(fmt.Sprintf(`{"%d":%d,"%d":1}`, i%16, i, (i+3)%16))) }},
 			{"Set", func(g, i int) { m.Set(dt.MakePair(i%16, i)) }},
 			{"Len", func(g, i int) { _ = m.Len() }},
 			{"Range", func(g, i int) { m.Range(func(int, int) bool { return true }) }},
@@ -365,6 +384,14 @@ func c13Subjects() []c13Subject {
 						_ = s.Len()
 					}
 				}},
+				{"SortMerge", func(g, i int) {
+					if ordered {
+						s.SortMerge(func(a, b int) bool { return a < b })
+					} else {
+						_ = s.Len()
+					}
+				}},
+				{"UnmarshalJSON", func(g, i int) { _ = s.UnmarshalJSON([]byte(fmt.Sprintf("[%d,%d]", i%24, (i+5)%24))) }},
 			}, func() {}
 		}})
 	}
